@@ -158,7 +158,7 @@ def run_writer(cfg, res):
   if (writer.CREATE_BUCKET is None) != (cr == inf) or (writer.UPDATE_BUCKET is None) != (up == inf):
     res.inconc('rate limit buckets not configured as requested')
     return
-  for case in range(12 if cfg['tier'] == 'quick' else 150):
+  for case in range(40 if cfg["tier"] == "quick" else 300):
     # fresh buckets as at daemon start, built by carbon's own module-level code (so that the derivation of capacity
     # and fill rate from the settings is the code under test)
     import importlib
@@ -172,7 +172,19 @@ def run_writer(cfg, res):
     regimes_u = [(up, up)]
     changes = []
     mcount = 0
-    for rnd in range(r.randint(2, 8)):
+    nrounds = r.randint(2, 8)
+    # a persistent backend condition for some of the rounds: the disk is full (every create raises) or some files are
+    # damaged (every write to them raises); attempts count as operations performed on the backend
+    sick = None
+    if r.random() < 0.4:
+      a = r.randrange(nrounds)
+      sick = (a, a + r.randint(1, 3), r.choice(['create', 'create', 'write']))
+      res.count('cases_with_persistent_backend_fault')
+    for rnd in range(nrounds):
+      if sick and rnd == sick[0]:
+        memdb.FAULT_OPS[sick[2]] = r.choice(['OSError', 'IOError', 'ValueError'])
+      if sick and rnd == sick[1]:
+        memdb.FAULT_OPS.clear()
       for _ in range(r.randint(0, 12)):
         if r.random() < 0.6:
           mcount += 1
